@@ -146,6 +146,8 @@ A_EXTERN void a_str_swap(a_str *lhs, a_str *rhs);
  @param[in] ctx points to an instance of string structure
  @note should use free to release this memory
  @return string of string structure
+  @retval 0 empty string structure, or no room for the terminating null character
+  could be allocated (in that case the string structure is left unchanged)
 */
 A_EXTERN char *a_str_exit(a_str *ctx);
 
